@@ -11,20 +11,33 @@ adding another, and two different expressions never share a node."
 Proved here, over the transcribed lookup-or-create of `_node_injection`, for every hash function `H`,
 every history of expressions of any length and every starting table of children:
 
-* `C18_reuse`, `C18_reuse_history` — the same expression again gives the same node and changes nothing
-  (child count included); `C18_parentless_fresh` — without a parent every expression makes a new node.
+* `C18_reuse`, `C18_reuse_history`, `C18_slice_reuse` — the same expression again gives the same node(s) and
+  changes nothing (child count included); `C18_parentless_fresh` — without a parent every expression makes a
+  new node.
 * `C18_share_iff` — two expressions share a node **iff** their labels are equal.
+* `C18_label_injective` — what exactly is assumed about `hash`: it is injective on the keys of the explored
+  expressions (`HashInjOn`).  Together with "class names contain no underscore" (`ClsOk`, a `decide`d fact of
+  the operator table, `C18_table_clsOk`) equal labels `injected_<Class>_<hash>` then have equal keys.
 * `C18_distinct_partial` — hence different expressions never share a node *provided the operands print
-  injectively* (`PrintInjective`) and the hash does not collide on the explored labels (`HashOk`);
-  `C18_distinct_witness` — the full statement is FALSE for the pinned printer (`str(operand)`):
-  `x[1]` and `x["1"]` (and `a + 1`, `a + "1"`) get the same node;
-  `C18_distinct_repaired` — it is a theorem for the repaired printer (type name + `repr`, hashed as a tuple).
-* `C18_dispatch`, `C18_dispatch_injective` — every operator method injects the node class that computes
-  the same Python operation with the operands in the same order; no two operators share a class.
+  injectively* (`PrintInjective`); `C18_distinct_witness` — the full statement is FALSE for the printer of the
+  originally pinned code (`str(operand)`): `x[1]` and `x["1"]` (and `a + 1`, `a + "1"`) get the same node;
+  `C18_distinct_repaired` — it is a theorem for the printer now in /repo (type name + `repr`, hashed as a tuple).
+* `C18_dispatch`, `C18_dispatch_injective`, `C18_inputs`, `C18_reflected_only_rmul` — every operator method
+  injects the node class that computes the same Python operation with the operands in the same order; no two
+  operators share a class; the class has exactly the input channels the call fills; the only reflected
+  operator is `__rmul__`.
+* `C18_value` — for EVERY interpretation `py` of Python's operations (values and exceptions alike): the node
+  function of the injected class, applied to what `_node_injection` feeds it (owner first, then the operands),
+  returns what the user's expression means in Python.
+* `C18_slice_repaired` / `C18_slice_partial` / `C18_slice_witness` — `x[a:b:c]` with a channel-like component
+  goes through the `Slice` node: the value clause holds for `slice(start, stop, step)`, holds for the node as it
+  is in /repo on closed slices only, and is FALSE for the open-ended forms (`x[a:]` raises ValueError where
+  Python slices); `C18_slice_value` composes it with `GetItem`; `C18_slice_raise_effect` — the partial effect
+  of that error (the `Slice` child stays behind, no `GetItem`).
 
-NOT proved (Python itself is the only oracle; validated differentially by the harness): the *value* clause
-— that the injected node's value equals the Python operator applied to the values and raises what Python
-raises.  `str()/repr()/type().__name__` of operands and `hash` are inputs/parameters of the model.
+NOT proved (Python itself is the only oracle; validated differentially by the harness): what Python's
+operations compute (`py` above is a parameter).  `str()/repr()/type().__qualname__` of operands and `hash` are
+inputs/parameters of the model.
 -/
 namespace PwVerif.C18
 open PwVerif PwVerif.Inject
@@ -57,9 +70,27 @@ theorem C18_share_iff (H : Key → String) (p : Printer) (st : St) (par : Nat) (
     n1 = n2 ↔ label H p e1 = label H p e2 :=
   share_iff H p st par es hwf e1 e2 n1 n2 h1 h2
 
-/-- the hash (and the rendering `injected_<Class>_<hash>`) does not collide on the explored expressions -/
+/-- equal labels come from equal keys on the explored expressions (derived below from `HashInjOn`) -/
 def HashOk (H : Key → String) (p : Printer) (es : List Expr) : Prop :=
   ∀ e1 ∈ es, ∀ e2 ∈ es, label H p e1 = label H p e2 → key p e1 = key p e2
+
+/-- **the assumption about `hash`**: `k ↦ str(hash(k)).replace("-", "m")` does not collide on the keys of the
+explored expressions.  Nothing else is assumed about it (not its range, not its rendering). -/
+def HashInjOn (H : Key → String) (p : Printer) (es : List Expr) : Prop :=
+  ∀ e1 ∈ es, ∀ e2 ∈ es, H (key p e1) = H (key p e2) → key p e1 = key p e2
+
+/-- class names contain no underscore (so `injected_<Class>_<hash>` parses uniquely) -/
+def ClsOk (es : List Expr) : Prop := ∀ e ∈ es, '_' ∉ e.cls.toList
+
+/-- every class of the operator table, and `Slice`, is fine -/
+theorem C18_table_clsOk : (∀ d : Dunder, '_' ∉ (dispatch d).toList) ∧ '_' ∉ ("Slice" : String).toList :=
+  ⟨dispatch_no_underscore, by decide⟩
+
+/-- labels are as injective as the hash -/
+theorem C18_label_injective (H : Key → String) (p : Printer) (es : List Expr)
+    (hh : HashInjOn H p es) (hc : ClsOk es) : HashOk H p es := by
+  intro e1 h1 e2 h2 hl
+  exact hh e1 h1 e2 h2 (label_inj H p e1 e2 (hc e1 h1) (hc e2 h2) hl).2
 
 /-- the world the expressions talk about is coherent: a scoped label names one channel (true among the
 channels of one parent), and type name + `repr` determine a raw operand -/
@@ -73,7 +104,7 @@ def PrintInjective (p : Printer) (es : List Expr) : Prop :=
 
 /-- the property's last clause: two different expressions never share a node -/
 def DistinctStatement (p : Printer) : Prop :=
-  ∀ (H : Key → String) (st : St) (par : Nat) (es : List Expr), WF st → HashOk H p es → Coherent es →
+  ∀ (H : Key → String) (st : St) (par : Nat) (es : List Expr), WF st → HashInjOn H p es → ClsOk es → Coherent es →
     ∀ e1 e2 n1 n2, (e1, n1) ∈ es.zip (injAll H p st par es).2 → (e2, n2) ∈ es.zip (injAll H p st par es).2 →
       n1 = n2 → e1 = e2
 
@@ -82,12 +113,13 @@ theorem mem_of_zip {es : List Expr} {ns : List Nat} {e : Expr} {n : Nat} (h : (e
 
 /-- for any printer: distinct under injective printing -/
 theorem C18_distinct_partial (p : Printer) (H : Key → String) (st : St) (par : Nat) (es : List Expr)
-    (hwf : WF st) (hh : HashOk H p es) (hp : PrintInjective p es)
+    (hwf : WF st) (hh : HashInjOn H p es) (hcl : ClsOk es) (hp : PrintInjective p es)
     (e1 e2 : Expr) (n1 n2 : Nat)
     (h1 : (e1, n1) ∈ es.zip (injAll H p st par es).2) (h2 : (e2, n2) ∈ es.zip (injAll H p st par es).2)
     (hn : n1 = n2) : e1 = e2 :=
   hp e1 (mem_of_zip h1) e2 (mem_of_zip h2)
-    (hh e1 (mem_of_zip h1) e2 (mem_of_zip h2) ((share_iff H p st par es hwf e1 e2 n1 n2 h1 h2).mp hn))
+    (C18_label_injective H p es hh hcl e1 (mem_of_zip h1) e2 (mem_of_zip h2)
+      ((share_iff H p st par es hwf e1 e2 n1 n2 h1 h2).mp hn))
 
 /-- the repaired printer is injective on every coherent set of expressions … -/
 theorem C18_repaired_print_injective (es : List Expr) (hc : Coherent es) : PrintInjective .repaired es := by
@@ -101,8 +133,8 @@ theorem C18_repaired_print_injective (es : List Expr) (hc : Coherent es) : Print
 
 /-- … so with it the statement holds in full -/
 theorem C18_distinct_repaired : DistinctStatement .repaired := by
-  intro H st par es hwf hh hc e1 e2 n1 n2 h1 h2 hn
-  exact C18_distinct_partial .repaired H st par es hwf hh (C18_repaired_print_injective es hc) e1 e2 n1 n2 h1 h2 hn
+  intro H st par es hwf hh hcl hc e1 e2 n1 n2 h1 h2 hn
+  exact C18_distinct_partial .repaired H st par es hwf hh hcl (C18_repaired_print_injective es hc) e1 e2 n1 n2 h1 h2 hn
 
 /-- `x[1]` and `x["1"]` on the output `l__user_input` -/
 def wInt : Expr := ⟨0, "l__user_input", "GetItem", [.raw "int" "1" "1"]⟩
@@ -138,6 +170,10 @@ theorem C18_distinct_witness : ¬ DistinctStatement .pinned := by
       simp only [List.mem_cons, List.not_mem_nil, or_false] at h1 h2
       rcases h1 with rfl | rfl <;> rcases h2 with rfl | rfl <;> first | rfl | exact hk | exact hk.symm)
     (by
+      intro e he
+      simp only [List.mem_cons, List.not_mem_nil, or_false] at he
+      rcases he with rfl | rfl <;> decide)
+    (by
       intro e1 h1 e2 h2
       simp only [List.mem_cons, List.not_mem_nil, or_false] at h1 h2
       rcases h1 with rfl | rfl <;> rcases h2 with rfl | rfl <;>
@@ -156,6 +192,96 @@ theorem C18_dispatch_injective : ∀ d1 ∈ Dunder.all, ∀ d2 ∈ Dunder.all, d
 theorem C18_dunder_all : ∀ d : Dunder, d ∈ Dunder.all := by
   intro d; cases d <;> decide
 
+/-- the class an operator injects has exactly the input channels the call fills: the owner and the operands -/
+theorem C18_inputs : ∀ d : Dunder, (clsInputs (dispatch d)).length = 1 + arity d := by
+  intro d; cases d <;> rfl
+
+/-- the only operator whose Python meaning puts the owner second is the reflected multiplication -/
+theorem C18_reflected_only_rmul : ∀ d : Dunder, (meaning d).2 = false ↔ d = .rmul := by
+  intro d; cases d <;> decide
+
+/-- **the value clause, relative to Python's own semantics `py`** (any interpretation of the operations on any
+value domain, exceptions included in `R`): the node function of the class injected by operator `d`, applied to
+the arguments `_node_injection` passes (the owner's value, then the operand values, positionally), returns
+exactly what the user's expression means in Python -/
+theorem C18_value {V R : Type} (py : Py V R) (d : Dunder) (self : V) (args : List V) :
+    nodeFn py (dispatch d) (nodeArgs true self args) = some (exprValue py d self args) := by
+  cases d <;> rfl
+
+/-- the slice clause: the `Slice` node builds Python's `slice(start, stop, step)` from the component values -/
+def SliceStatement (f : SliceFn) : Prop :=
+  ∀ (V : Type) (start stop step : Option V), sliceNode f start stop step = .ok (start, stop, step)
+
+/-- a slice the node of /repo accepts: `x[a:b]`, `x[a:b:c]`, `x[:b]` -/
+def ClosedSlice {V : Type} (start stop step : Option V) : Prop :=
+  stop.isSome ∧ (start.isSome ∨ step = none)
+
+theorem C18_slice_repaired : SliceStatement .python := fun _ _ _ _ => rfl
+
+theorem C18_slice_partial {V : Type} (start stop step : Option V) (h : ClosedSlice start stop step) :
+    sliceNode .strict start stop step = .ok (start, stop, step) := by
+  obtain ⟨h1, h2⟩ := h
+  cases start <;> cases stop <;> cases step <;> simp_all [sliceNode]
+
+/-- … and only those: FALSE on the tree as it is — `x[a:]` (start given, stop `None`) raises ValueError -/
+theorem C18_slice_witness : ¬ SliceStatement .strict := by
+  intro h
+  have := h Unit (some ()) none none
+  simp [sliceNode] at this
+
+/-- `x[a:b:c]` end to end: with Python's `slice` the `GetItem` node fed by the `Slice` node yields
+`getitem [x, slice(a, b, c)]`; with the strict node the same on closed slices -/
+theorem C18_slice_value {V R : Type} (py : Py V R) (mk : Option V → Option V → Option V → V)
+    (x : V) (a b c : Option V) :
+    sliceExprValue py mk .python x a b c = .ok (some (py.ap .getitem [x, mk a b c])) ∧
+    (ClosedSlice a b c → sliceExprValue py mk .strict x a b c = .ok (some (py.ap .getitem [x, mk a b c]))) := by
+  refine ⟨rfl, fun h => ?_⟩
+  simp [sliceExprValue, C18_slice_partial a b c h, nodeFn, clsSem]
+
+/-- writing `x[a:b:c]` again (nothing raised the first time): the same `Slice` and the same `GetItem` node,
+state unchanged -/
+theorem C18_slice_reuse (H : Key → String) (p : Printer) (st : St) (par owner : Nat) (slabel : String)
+    (a b c : Operand) (chanOf : Nat → Nat) :
+    getitemSlice H p (getitemSlice H p st (some par) owner slabel a b c chanOf).1 (some par) owner slabel a b c chanOf
+      = getitemSlice H p st (some par) owner slabel a b c chanOf := by
+  let es : Expr := ⟨owner, slabel, "Slice", [a, b, c]⟩
+  let r1 := inject H p st (some par) es
+  let eg : Expr := ⟨owner, slabel, "GetItem", [.chan (chanOf r1.2) (label H p es ++ "__slice")]⟩
+  let r2 := inject H p r1.1 (some par) eg
+  have hs : (r2.1.children par).lookup (label H p es) = some r1.2 :=
+    inject_mono H p r1.1 (some par) eg par _ _ (inject_lookup_self H p st par es)
+  have hg : (r2.1.children par).lookup (label H p eg) = some r2.2 := inject_lookup_self H p r1.1 par eg
+  have e1 : inject H p r2.1 (some par) es = (r2.1, r1.2) := inject_found H p r2.1 par es _ hs
+  have e2 : inject H p r2.1 (some par) eg = (r2.1, r2.2) := inject_found H p r2.1 par eg _ hg
+  show getitemSlice H p r2.1 (some par) owner slabel a b c chanOf = (r2.1, r1.2, r2.2)
+  unfold getitemSlice
+  simp only []
+  rw [e1]
+  simp only []
+  rw [e2]
+
+/-- the partial effect of the refused open-ended slice inside a parent: the new `Slice` node stays behind as a
+child (one more child), no `GetItem` is made; written again, the expression does not raise any more -/
+theorem C18_slice_raise_effect (H : Key → String) (p : Printer) (st : St) (par owner : Nat) (slabel : String)
+    (a b c : Operand) (chanOf : Nat → Nat) (sN bN cN : Bool) (hwf : WF st)
+    (hnew : (st.children par).lookup (label H p ⟨owner, slabel, "Slice", [a, b, c]⟩) = none)
+    (hopen : (bN || (sN && !cN)) = true) :
+    let r := getitemSliceRun H p .strict st (some par) owner slabel a b c chanOf true sN bN cN
+    r.2.2 = none ∧ r.2.1 = st.next ∧ (r.1.children par).length = (st.children par).length + 1 ∧
+    (getitemSliceRun H p .strict r.1 (some par) owner slabel a b c chanOf true sN bN cN).2.2.isSome := by
+  have hr : sliceRaises .strict true sN bN cN = true := by rw [sliceRaises_strict]; simpa using hopen
+  have hinj := inject_new H p st par ⟨owner, slabel, "Slice", [a, b, c]⟩ hnew
+  have hrun : getitemSliceRun H p .strict st (some par) owner slabel a b c chanOf true sN bN cN =
+      ((inject H p st (some par) ⟨owner, slabel, "Slice", [a, b, c]⟩).1, st.next, none) := by
+    simp [getitemSliceRun, hinj, hr]
+  simp only [hrun]
+  refine ⟨trivial, trivial, ?_, ?_⟩
+  · rw [hinj]; simp
+  · have hl := inject_lookup_self H p st par ⟨owner, slabel, "Slice", [a, b, c]⟩
+    rw [getitemSliceRun_found H p .strict _ par owner slabel a b c chanOf true sN bN cN _
+      (inject_WF H p st (some par) _ hwf) hl]
+    rfl
+
 /-! ## Non-vacuity -/
 
 /-- a toy hash that separates the keys below -/
@@ -169,8 +295,24 @@ def exEs : List Expr := [wAddInt, exAdd2, wAddInt, exMulB, exAdd2]
 
 example : (injAll exH .pinned emptySt 0 exEs).2 = [0, 1, 0, 2, 1] := by decide
 example : ((injAll exH .pinned emptySt 0 exEs).1.children 0).length = 3 := by decide
-example : HashOk exH .pinned exEs ∧ PrintInjective .pinned exEs := by
-  unfold HashOk PrintInjective; decide
+example : HashInjOn exH .pinned exEs ∧ PrintInjective .pinned exEs := by
+  unfold HashInjOn PrintInjective; decide
+example : ClsOk exEs := by unfold ClsOk; decide
+/-- a toy Python: values are integers, `sub` subtracts, `mul` on a reflected call sees the operands swapped -/
+def exPy : Py Int Int := ⟨fun op xs => match op, xs with
+  | .sub, [a, b] => a - b | .mul, [a, b] => 10 * a + b | .neg, [a] => -a | _, _ => 0⟩
+example : nodeFn exPy (dispatch .sub) (nodeArgs true 7 [2]) = some 5 ∧
+    nodeFn exPy (dispatch .rmul) (nodeArgs true 7 [2]) = some 27 ∧
+    nodeFn exPy (dispatch .mul) (nodeArgs true 7 [2]) = some 72 ∧
+    nodeFn exPy (dispatch .neg) (nodeArgs true 7 []) = some (-7) := by decide
+example : ClosedSlice (some 1) (some 4) (none : Option Nat) ∧ ¬ ClosedSlice (some 1) none (none : Option Nat) := by
+  simp [ClosedSlice]
+/-- `x[c:]` inside a parent on the strict node: the Slice node is left behind, then the expression "works" -/
+example :
+    let r := getitemSliceRun exH .repaired .strict emptySt (some 0) 0 "s__user_input"
+      (.chan 3 "i__user_input") (.raw "NoneType" "None" "None") (.raw "NoneType" "None" "None") (· + 1000)
+      true false true true
+    r.2 = (0, none) ∧ (r.1.children 0).length = 1 := by decide
 example : Coherent [wInt, wStr, wAddInt, exMulB] := by
   intro e1 h1 e2 h2
   simp only [List.mem_cons, List.not_mem_nil, or_false] at h1 h2
@@ -191,6 +333,8 @@ end PwVerif.C18
 #print axioms PwVerif.C18.C18_reuse_history
 #print axioms PwVerif.C18.C18_parentless_fresh
 #print axioms PwVerif.C18.C18_share_iff
+#print axioms PwVerif.C18.C18_table_clsOk
+#print axioms PwVerif.C18.C18_label_injective
 #print axioms PwVerif.C18.C18_distinct_partial
 #print axioms PwVerif.C18.C18_repaired_print_injective
 #print axioms PwVerif.C18.C18_distinct_repaired
@@ -199,3 +343,12 @@ end PwVerif.C18
 #print axioms PwVerif.C18.C18_dispatch
 #print axioms PwVerif.C18.C18_dispatch_injective
 #print axioms PwVerif.C18.C18_dunder_all
+#print axioms PwVerif.C18.C18_inputs
+#print axioms PwVerif.C18.C18_reflected_only_rmul
+#print axioms PwVerif.C18.C18_value
+#print axioms PwVerif.C18.C18_slice_repaired
+#print axioms PwVerif.C18.C18_slice_partial
+#print axioms PwVerif.C18.C18_slice_witness
+#print axioms PwVerif.C18.C18_slice_value
+#print axioms PwVerif.C18.C18_slice_reuse
+#print axioms PwVerif.C18.C18_slice_raise_effect
